@@ -66,3 +66,53 @@ def special__reach(iv: int, st: int, pos: int, kind: int) -> bool:
     post: __return__ == False
     """
     return special(iv, st, pos, kind)
+
+
+# ---------------------------------------------------------------------------------- integer dtypes
+INT_DTYPES = [np.uint8, np.int8, np.uint16, np.int16, np.int32, np.int64]
+
+
+def _fix(name, v):
+    return v == FIXED[name] if name in FIXED else True
+
+
+def _int_case(dt, lim, a, b, st, with_data):
+    dtype = _pick(INT_DTYPES, dt)
+    info = np.iinfo(dtype)
+    lo, hi = int(info.min), int(info.max)
+    span = hi - lo
+    menu = [lo, lo + span // 5, lo + span // 2, hi - span // 5, hi]                  # extremes and interior values of the dtype
+    x = sorted([_pick(menu, a), _pick(menu, b), lo + span // 3])
+    data = np.array(x, dtype=dtype)
+    vmin, vmax = _pick([(lo + span // 4, hi - span // 4), (lo + span // 3 + 1, hi), (lo, lo + span // 2), (lo + 1, hi - 1)], lim)
+    skw = _pick([dict(stretch_type="linear"), dict(stretch_type="power", power=2.0)], st)
+    kw = dict(data=data) if with_data else {}
+    norm = cn.CustomNormalization(interval_type="manual", vmin=vmin, vmax=vmax, **kw, **skw)      # limits are Python ints
+    with np.errstate(all="ignore"):
+        y = np.asarray(norm(data.copy()), dtype=float)
+        ref = np.asarray(norm(data.astype(np.float64)), dtype=float)
+    if not all(0.0 <= v <= 1.0 for v in y):
+        return False
+    if not all(y[i] <= y[i + 1] for i in range(len(y) - 1)):
+        return False                                   # non-decreasing in the data value
+    if not np.allclose(y, ref, atol=1e-9):
+        return False                                   # an integer array is normalised like the same numbers as floats
+    return bool((data == np.array(x, dtype=dtype)).all())
+
+
+def int_dtype(dt: int, lim: int, a: int, b: int, st: int, with_data: bool) -> bool:
+    """integer-typed data with Python-int limits: range, monotonicity, agreement with the float64 computation, input untouched
+
+    pre: 0 <= dt < len(INT_DTYPES) and 0 <= lim < 4 and 0 <= a < 5 and 0 <= b < 5 and 0 <= st < 2
+    pre: _fix("dt", dt)
+    post: __return__ == True
+    """
+    return _int_case(dt, lim, a, b, st, with_data)
+
+
+def int_dtype__reach(dt: int, lim: int, a: int, b: int, st: int, with_data: bool) -> bool:
+    """
+    pre: 0 <= dt < len(INT_DTYPES) and 0 <= lim < 4 and 0 <= a < 5 and 0 <= b < 5 and 0 <= st < 2
+    post: __return__ == False
+    """
+    return _int_case(dt, lim, a, b, st, with_data)
